@@ -8,7 +8,7 @@ SRCS = ["vnacal_calibration.c", "vnacal_delete_calibration.c", "vnacal_find_cali
         "vnacal_make_unknown_parameter.c", "vnacal_get_parameter_value.c", "vnacal_rfi.c", "vnacal_error.c"]
 
 
-def jobs(tier):
+def jobs(tier, imports=True):
     J = []
     cal_allocs = (0, 1, 8) if tier == "quick" else (0, 1, 2, 8)
     for a in cal_allocs:
@@ -53,6 +53,15 @@ def jobs(tier):
     for j in C01.jobs(tier):
         if j.name == "param_hash.deleted_handle":       # deleted handles refused by vnacal_new_add_*, referrers keep working
             j.name = "vnacal_new." + j.name
+            j.imported = True
+            J.append(j)
+    # "values returned for solved unknown parameters are those solved": the commit loop of the solve gives a handle
+    # that was solved before (over more, or fewer, frequencies) exactly the grid and values of THIS solve
+    import C11
+    for j in (C11.jobs("quick") if imports else []):
+        if j.name.startswith("solve_frame.") and "_unknown" in j.name and "merror" not in j.name:
+            j.name = "solved_unknown." + j.name
+            j.canary = False
             j.imported = True
             J.append(j)
     return J
